@@ -29,8 +29,7 @@ UNIT = {
   'struct XRefInfo': {'kind': 'decl', 'file': X, 'header': r'^pub struct XRefInfo$',
      # the framework's attribute stripper stops at the first `]` of `#[pdf(key = "Index", default = "vec![0, size]")]`;
      # the left-over tail of that attribute is removed here
-     'rewrites': [{'rule': 'R2', 'find': '")]', 'replace': ''},
-                  {'rule': 'R2', 'find': 'prev:', 'replace': 'pub prev:'}]},
+     'rewrites': [{'rule': 'R2', 'find': 'prev:', 'replace': 'pub prev:'}]},
   'struct ParseOptions': {'kind': 'decl', 'file': O, 'header': r'^pub struct ParseOptions$'},
 
   # ---------------------------------------------------------------- reader
